@@ -33,7 +33,10 @@ def rules(t):
         ok = False
         for br, c in caps:
             from rules.C17 import all_paths_pass
-            if all_paths_pass(ap, g.node["target"], {br["bb"]}): ok = True
+            rem0 = {pos(x) for x in t.effects("pending_acks", {"remove"}, ap) if const_eval(t.arg(x, 1)) == 0}
+            te_ = br["t_edge"]
+            # the growth always reaches the cap test, and from the test's true edge every path trims (no extra condition on the trim)
+            if all_paths_pass(ap, g.node["target"], {br["bb"]}) and must_pass(ap, (te_[0], len(ap.blocks[te_[0]]["stmts"])), rem0, avoid_edges={br["f_edge"]})[0]: ok = True
         if not ok: r.bad(f"untrimmed|{method_of(callee_name(g.node))}", g, f"pending_acks grows ({method_of(callee_name(g.node))}) on a path that returns without the `len > {cap}` trim: the ack packet is unbounded")
     if cap is None: r.bad("no-cap", None, "no `pending_acks.len() > CAP -> remove(0)` trim found")
     out.append(r)
@@ -54,6 +57,25 @@ def rules(t):
             pushed = [c for c in t.calls(r"Vec.*::push$", f) if t.edge_dominates(f, te, c.bb) and "Small" in fmt(t.arg(c, 1))]
             if not pushed: r.bad(f"{name}|flush-push", None, "flush edge does not emit the accumulated packet")
         if not flush: r.bad(f"{name}|no-flush", None, "no flush test against SLICE_SIZE in the packing loop")
+        # every message put into the packet under construction is counted: `small_messages_bytes += serialized_size` dominates the push and no reset lies between them
+        tot = [l["i"] for l in f.locals if l.get("name") == "small_messages_bytes"]
+        vec = [l["i"] for l in f.locals if l.get("name") == "small_messages"]
+        if not tot or not vec: r.bad(f"{name}|locals", None, "packing locals small_messages / small_messages_bytes not found"); continue
+        wr = [x for x in t.sites(f) if x.node["k"] == "assign" and not x.node["place"]["proj"] and x.node["place"]["local"] == tot[0]]
+        adds = [x for x in wr if "AddWithOverflow" in fmt(t.stored(x)) and ("varint_len" in fmt(t.stored(x)) or "deep" in fmt(t.stored(x)))]
+        resets = [x for x in wr if const_eval(t.stored(x)) == 0]
+        from rules.C08 import pushed_into
+        for c, val in pushed_into(t, f, vec[0]):
+            r.site(c, "message packed")
+            lp = innermost_loop(f, c.bb)
+            dom = [a for a in adds if f.dominates(a.bb, c.bb) and (lp is None or a.bb in lp[1])]
+            if not dom: r.bad(f"{name}|uncounted", c, "a message is put into the packet under construction on a path where its size was not added to small_messages_bytes: the packet can exceed SLICE_SIZE + one message"); continue
+            a = dom[-1]
+            avoid = {(p_, lp[0]) for p_ in f.pred[lp[0]]} if lp else set()
+            between = f.reachable_from([a.bb], avoid_edges=avoid)
+            for z in resets:
+                if z.bb in between and (z.bb != a.bb or z.idx > a.idx) and c.bb in f.reachable_from([z.bb], avoid_edges=avoid) and (z.bb != c.bb or z.idx < c.idx):
+                    r.bad(f"{name}|reset-between", z, "small_messages_bytes is reset between counting a message and packing it")
         # small messages are at most SLICE_SIZE long (reliable: by the Small/Sliced split; unreliable: by the `len > SLICE_SIZE` branch)
         body_bound[name] = max(S, S + VARINT_LEN(S) + (VARINT if extra_id else 0))
     sm = t.fn("SendChannelReliable::send_message")
